@@ -45,7 +45,8 @@ Record sub := mkSub { s_cli : Z; s_proc : Z; s_oid : Z; s_conf : bool; s_life : 
 Record st := mkSt { now : Z; ctr : Z; objs : list obj; subs : list sub }.
 Definition init (os : list obj) : st := mkSt T0 0 os [].
 
-Record ntf := mkNtf { n_cli : Z; n_proc : Z; n_oid : Z; n_conf : bool; n_trem : Z; n_pv : Z; n_fl : Z }.
+(* n_at: the instant of emission — not part of the PDU, used by the theorems only *)
+Record ntf := mkNtf { n_cli : Z; n_proc : Z; n_oid : Z; n_conf : bool; n_trem : Z; n_pv : Z; n_fl : Z; n_at : Z }.
 Record act := mkAct { a_cli : Z; a_proc : Z; a_oid : Z; a_conf : bool; a_trem : Z; a_hasinc : bool; a_inc : Z }.
 Record out := mkOut { o_tag : Z; o_ack : Z; o_code : Z; o_ntfs : list ntf; o_act : option (list act) }.
 
@@ -115,7 +116,7 @@ Definition trem (nw : Z) (s : sub) : Z :=
        | Some (t, _) => let r := Z.quot (t - nw) TICKS in if r =? 0 then 1 else r
        end.
 Definition mk_ntf (nw : Z) (o : obj) (s : sub) : ntf :=
-  mkNtf (s_cli s) (s_proc s) (s_oid s) (s_conf s) (trem nw s) (pv o) (fl o).
+  mkNtf (s_cli s) (s_proc s) (s_oid s) (s_conf s) (trem nw s) (pv o) (fl o) nw.
 Definition subs_of (i : Z) (sb : list sub) : list sub := filter (fun s => s_oid s =? i) sb.
 Definition report (o : obj) : obj := if reports_prev (okind o) then set_prev o (Some (pv o)) else o.
 Definition send_all (nw : Z) (sb : list sub) (o : obj) : obj * list ntf :=
